@@ -5,4 +5,7 @@ MCCap == [d \in MCDevs |-> IF d = "bd_trough" THEN 3 ELSE IF d = "bd_lock" THEN 
 MCTarget == [d \in MCDevs |-> IF d = "bd_trough" THEN "bd_plunger" ELSE "pf"]
 MCCap2 == [d \in MCDevs |-> IF d = "bd_trough" THEN 3 ELSE 2]
 MCTarget2 == [d \in MCDevs |-> IF d = "bd_plunger" THEN "pf" ELSE "bd_plunger"]
+\* third topology: as the second, but a one-slot launcher and the lock confirms its ejects by a switch on the way
+MCCap3 == [d \in MCDevs |-> IF d = "bd_trough" THEN 3 ELSE IF d = "bd_lock" THEN 2 ELSE 1]
+MCTarget3 == MCTarget2
 =============================================================================
